@@ -109,11 +109,14 @@ class GenElab:
                 if name in used:
                     continue
                 used.add(name)
-                if name == "p" and bases and "p" in self.defined.get(bases[0], []) and rng.random() < 0.5:
-                    # @Base.p.setter / .deleter / .getter: one accessor re-defined on the inherited property
+                pbases = [j for j, b in enumerate(bases) if "p" in self.defined.get(b, [])]
+                if name == "p" and pbases and rng.random() < 0.5:
+                    # @Base.p.setter / .deleter / .getter: one accessor re-defined on the property of one of the bases
+                    j = rng.choice(pbases)
                     for acc in rng.sample(["get", "set", "del"], rng.choice([1, 1, 2])):
                         m = self.member("p", acc, snap_pool=snap_pool)
                         m["inherit"] = True
+                        m["inherit_base"] = j
                         members.append(m)
                 elif name == "p":
                     for acc in rng.sample(["get", "set", "del"], rng.choice([1, 2, 3])):
@@ -139,6 +142,68 @@ class GenElab:
             self.defined[nclasses] = sorted(set([m["name"] for m in members] + inherited))
             nclasses += 1
         return {"ops": ops, "names": NAMES}
+
+
+    # ---- directed shapes: hierarchies in which the walk over several bases matters
+    def _cls(self, bases, members, invs=(), dbc=None):
+        return {"op": "class", "bases": list(bases), "dbc": (not bases) if dbc is None else dbc,
+                "members": members, "invs": list(invs)}
+
+    def _inv(self, check_on):
+        return {"contract": self.contract(), "check_on": check_on, "enabled": True, "invalid": None}
+
+    def _with(self, m, decos):
+        m = dict(m)
+        m["decos"] = decos
+        m.pop("abstract", None)
+        return m
+
+    def directed_history(self):
+        rng = self.rng
+        self.cid = self.sid = self.fk = 0
+        req = lambda: ["require", self.contract(), True]   # noqa: E731
+        ens = lambda: ["ensure", self.contract(), True]    # noqa: E731
+        acc = lambda kind, decos: self._with(self.member("p", kind), decos)   # noqa: E731
+        fn = lambda name, kind, decos: self._with(self.member(name, kind), decos)   # noqa: E731
+        shape = rng.choice(["prop-missing-accessor", "prop-accessor-of-other-base", "inherited-static", "diamond-posts",
+                            "invariant-events", "special-of-second-base"])
+        order = rng.choice([[0, 1], [1, 0]])
+        if shape == "prop-missing-accessor":
+            # one base shows the property without the accessor, the other one with it and with contracts
+            ops = [self._cls([], [acc("get", rng.choice([[], [ens()]]))]),
+                   self._cls([], [acc("get", []), acc(rng.choice(["set", "del"]), [req(), ens()])])]
+            k = ops[1]["members"][1]["kind"]
+            ops.append(self._cls(order, [acc("get", rng.choice([[], [ens()]])), acc(k, rng.choice([[], [ens()], [req()]]))]))
+        elif shape == "prop-accessor-of-other-base":
+            # both bases define the property with contracts; the sub-class re-defines one accessor on one base's property
+            ops = [self._cls([], [acc("get", [ens()]), acc("set", rng.choice([[], [req()]]))]),
+                   self._cls([], [acc("get", [ens()]), acc("set", [req(), ens()])])]
+            m = acc(rng.choice(["set", "del"]), rng.choice([[], [ens()]]))
+            m["inherit"] = True
+            m["inherit_base"] = rng.choice([0, 1])
+            ops.append(self._cls(order, [m]))
+            ops.append(self._cls([2], [acc("get", rng.choice([[], [ens()]]))]))
+        elif shape == "inherited-static":
+            ops = [self._cls([], [fn("f", "static", rng.choice([[], [ens()]])), fn("g", "classm", rng.choice([[], [req()]]))]),
+                   self._cls([0], [fn("__repr__", "plain", [])], invs=[self._inv(rng.choice(["CALL", "ALL"]))]),
+                   self._cls([1], [fn("g", "classm", rng.choice([[], [ens()]]))], invs=rng.choice([[], [self._inv("CALL")]]))]
+        elif shape == "diamond-posts":
+            ops = [self._cls([], [fn("f", "plain", [ens()] + rng.choice([[], [req()]]))]),
+                   self._cls([0], [fn("f", "plain", [ens()])]),
+                   self._cls([0], rng.choice([[fn("f", "plain", [ens()])], []])),
+                   self._cls(rng.choice([[1, 2], [2, 1]]), [fn("f", "plain", rng.choice([[ens()], [ens(), req()]]))])]
+        elif shape == "invariant-events":
+            ev = lambda: rng.choice(["CALL", "SETATTR", "ALL"])   # noqa: E731
+            ops = [self._cls([], [fn("f", "plain", [])], invs=[self._inv(ev())]),
+                   self._cls([0], [fn("g", "plain", [])], invs=[self._inv(ev()) for _ in range(rng.choice([1, 2]))]),
+                   self._cls([1], rng.choice([[], [fn("__setattr__", "plain", [])]]), invs=rng.choice([[], [self._inv(ev())]]))]
+        else:
+            # a class that lacks a special method before the class that defines it, in the bases of a third one
+            nm = rng.choice(["__setattr__", "__eq__"])
+            ops = [self._cls([], [fn(nm, "plain", [ens()])]),
+                   self._cls([], [fn("f", "plain", [])], invs=[self._inv("ALL")]),
+                   self._cls(order, rng.choice([[], [fn("g", "plain", [])]]))]
+        return {"ops": ops, "names": NAMES, "shape": shape}
 
 
 # ------------------------------------------------------------------ Python source
@@ -230,7 +295,7 @@ def py_op(i, op, class_names):
     for m in op["members"]:
         m = dict(m)
         if m.get("inherit") and m["name"] not in seen_names and op["bases"]:
-            m["inherit_from"] = class_names[op["bases"][0]]
+            m["inherit_from"] = class_names[op["bases"][int(m.get("inherit_base", 0))]]
         seen_names.add(m["name"])
         helpers, lines = py_member(m, "    ", L)
         helpers_all += [h.lstrip() for h in helpers]
@@ -293,7 +358,8 @@ def cq_member(m, toplevel=False):
     fsig = render_checker.with_receiver(m["sig"], recv)
     return "{| md_name := %s; md_kind := %s; md_async := %s; md_sig := %s; md_decos := %s; md_inherit := %s |}" % (
         C.cq_str(m["name"]), MK[m["kind"]], C.cq_bool(m["async"]), GC.cq_sig(fsig),
-        C.cq_list([cq_deco(d) for d in m["decos"]]), C.cq_bool(bool(m.get("inherit"))))
+        C.cq_list([cq_deco(d) for d in m["decos"]]),
+        ("(Some %d%%nat)" % int(m.get("inherit_base", 0))) if m.get("inherit") else "None")
 
 
 def cq_op(op):
